@@ -322,3 +322,62 @@ def _gen_cost(rng):
 
 
 compress_cost.gen = _gen_cost
+
+
+# ------------------------------------------------------------------ compress
+# C20 'bond merging capped at chi': whatever groups of parallel edges are merged, an edge's size afterwards
+# is its old size or min(size of some bond, chi) - never above the cap unless it was before, and exactly the
+# bond's size whenever that does not exceed the cap (nothing truncated).
+HgSizeT = ObjT("HyperGraph", dict(HgT.fields, size_dict=Ty.Map(Key, Ty.Int)))
+compress = Contract(
+    target="cotengra.hypergraph:HyperGraph.compress",
+    props=["C20"],
+    self_type=HgSizeT, params={"chi": Ty.Int, "edges": Ty.NoneT},
+    returns=Ty.NoneT,
+    externals={"HyperGraph.edges_size": x_edges_size, "bond_size": x_bond_size},
+    hints={"incidences": Ty.Map(Key, TupT), "e": Key, "nodes": Key, "es_del": TupT},
+    modifies=["self.size_dict", "self.nodes", "self.edges"],
+    nloops=None,
+    loops={1: Loop(seen="S", inv=[
+        "forall(keys(old(self.size_dict)), lambda x: x in self.size_dict)",
+        "forall(keys(self.size_dict), lambda x: (x in old(self.size_dict) and self.size_dict[x] == old(self.size_dict)[x])"
+        " or exists(lambda s: self.size_dict[x] == min(bond_size(s), chi)))",
+    ])},
+    ensures=[
+        "forall(keys(old(self.size_dict)), lambda x: x in self.size_dict)",
+        "forall(keys(self.size_dict), lambda x: (x in old(self.size_dict) and self.size_dict[x] == old(self.size_dict)[x])"
+        " or exists(lambda s: self.size_dict[x] == min(bond_size(s), chi)))",
+    ],
+    assumptions=["the grouping of parallel edges and the removal of the merged edges are abstracted (arbitrary groups; remove_edge changes nodes/edges only);"
+                 " a bond's size is a function of its set of edges"],
+)
+compress.abstract_stmts = {
+    "incidences = collections.defaultdict": ["incidences"],
+    "for e in unique(edges):": ["incidences", "e", "nodes"],
+    "for e in es_del:": ["e", "self.nodes", "self.edges"],
+}
+CONTRACTS.append(compress)
+
+
+def _gen_compress(rng):
+    hg, d = _hg(rng)
+    groups = {}
+    for e, ns in hg.edges.items():
+        if e not in hg.output:
+            groups.setdefault(frozenset(ns), []).append(e)
+    sizes0 = dict(hg.size_dict)
+
+    def size(es):
+        p = 1
+        for e in es:
+            p *= sizes0[e]
+        return p
+
+    bonds = [frozenset(es) for es in groups.values() if len(es) > 1]
+    top = max([size(b) for b in bonds] or [2])
+    chi = rng.choice((1, 2, 3, top, top, top + 1, 10**6))
+    return {"self": hg, "args": (chi, None), "universe": bonds or [frozenset()], "bind": {"bond_size": lambda s: size(s)},
+            "describe": f"{d} edges={hg.edges} sizes={sizes0} output={hg.output} chi={chi}"}
+
+
+compress.gen = _gen_compress
